@@ -567,7 +567,7 @@ def plan(tier, seed):
     n = 15
     if tier == 'thorough':
         sh = [{'seed': seed, 'shard': i, 'shards': n, 'depth': 4,
-               'cap': 10 ** 9, 'random': 400} for i in range(n)]
+               'cap': 10 ** 9, 'random': 3000} for i in range(n)]
     else:
         sh = [{'seed': seed, 'shard': i, 'shards': n, 'depth': 3,
                'cap': 500, 'random': 60} for i in range(n)]
